@@ -917,8 +917,13 @@ func ruleAnyXmlList(p *Prog, r *Report) {
 		// calls of the element encoder inside the loop over v.([]interface{})
 		var hdr *ssa.BasicBlock
 		var calls []*ssa.Call
+		loopFn := fn
+		encodes := func(c *ssa.Call) bool {
+			g := staticCallee(&c.Call)
+			return g == enc || (g != nil && p.InModule(g) && !p.Exported(g) && p.alwaysCalls(g, enc, 0))
+		}
 		eachInstr(fn, func(b *ssa.BasicBlock, in ssa.Instruction) {
-			if c, ok := in.(*ssa.Call); ok && staticCallee(&c.Call) == enc {
+			if c, ok := in.(*ssa.Call); ok && encodes(c) {
 				if h := outermostRangeOverParam(c.Block(), fn.Params[0]); h != nil {
 					hdr = h
 					calls = append(calls, c)
@@ -926,10 +931,46 @@ func ruleAnyXmlList(p *Prog, r *Report) {
 			}
 		})
 		if hdr == nil {
+			// the loop over the list may have moved into an unexported helper that is handed v.([]interface{})
+			eachInstr(fn, func(b *ssa.BasicBlock, in ssa.Instruction) {
+				c, ok := in.(*ssa.Call)
+				if !ok || hdr != nil {
+					return
+				}
+				h := staticCallee(&c.Call)
+				if h == nil || !p.InModule(h) || p.Exported(h) || len(h.Blocks) == 0 {
+					return
+				}
+				for i, a := range c.Call.Args {
+					if i >= len(h.Params) || !assertOf(a, fn.Params[0]) {
+						continue
+					}
+					if _, isSl := a.Type().Underlying().(*types.Slice); !isSl {
+						continue
+					}
+					prm := h.Params[i]
+					eachInstr(h, func(b2 *ssa.BasicBlock, i2 ssa.Instruction) {
+						ia, ok := i2.(*ssa.IndexAddr)
+						if !ok || ia.X != ssa.Value(prm) || !isRangeIndex(ia.Index) {
+							return
+						}
+						hh := ia.Index.(*ssa.BinOp).X.(*ssa.Phi).Block()
+						body := naturalLoop(hh)
+						eachInstr(h, func(b3 *ssa.BasicBlock, i3 ssa.Instruction) {
+							if c3, ok := i3.(*ssa.Call); ok && body[b3] && encodes(c3) {
+								hdr, loopFn = hh, h
+								calls = append(calls, c3)
+							}
+						})
+					})
+				}
+			})
+		}
+		if hdr == nil {
 			r.Bad(rule, n, "every list member encoded", p.Pos(fn.Pos()), "no encoder call inside a range over the list value")
 			continue
 		}
-		if why := p.callsCoverBody(fn, calls, hdr, nil); why == "" {
+		if why := p.callsCoverBody(loopFn, calls, hdr, nil); why == "" {
 			r.OK(rule, n, "every list member encoded", p.Pos(calls[0].Pos()), fmt.Sprintf("%d encoder call sites cover every path through the loop body", len(calls)))
 		} else {
 			r.Bad(rule, n, "every list member encoded", p.Pos(fn.Pos()), why)
@@ -970,6 +1011,55 @@ func ruleAnyXmlList(p *Prog, r *Report) {
 			r.Unknown("ROOT.explicit", n, cons, p.Pos(c.Pos()), "the root tag argument is not a literal list: it may be empty")
 		})
 	}
+}
+
+// alwaysCalls: every path from the entry of h to a return passes a call of target (directly, or through an unexported function
+// for which the same holds); a range over a map known to have exactly one entry runs its body.
+func (p *Prog) alwaysCalls(h *ssa.Function, target *ssa.Function, depth int) bool {
+	if len(h.Blocks) == 0 || depth > 2 {
+		return false
+	}
+	callBlk := map[*ssa.BasicBlock]bool{}
+	eachInstr(h, func(b *ssa.BasicBlock, in ssa.Instruction) {
+		if c, ok := in.(*ssa.Call); ok {
+			g := staticCallee(&c.Call)
+			if g == target || (g != nil && g != h && p.InModule(g) && !p.Exported(g) && p.alwaysCalls(g, target, depth+1)) {
+				callBlk[b] = true
+			}
+		}
+	})
+	if len(callBlk) == 0 {
+		return false
+	}
+	oneIter := map[*ssa.BasicBlock]map[*ssa.BasicBlock]bool{}
+	for _, l := range findMapLoops(h) {
+		if l.next != nil && p.lenIsOneGuard(l) {
+			oneIter[l.header] = l.body
+		}
+	}
+	seen := map[*ssa.BasicBlock]bool{h.Blocks[0]: true}
+	work := []*ssa.BasicBlock{h.Blocks[0]}
+	for len(work) > 0 {
+		b := work[len(work)-1]
+		work = work[:len(work)-1]
+		if callBlk[b] {
+			continue
+		}
+		if _, ok := b.Instrs[len(b.Instrs)-1].(*ssa.Return); ok {
+			return false
+		}
+		body, single := oneIter[b]
+		for _, sc := range b.Succs {
+			if single && !body[sc] {
+				continue
+			}
+			if !seen[sc] {
+				seen[sc] = true
+				work = append(work, sc)
+			}
+		}
+	}
+	return true
 }
 
 // outermostRangeOverParam: the header of a range loop over an assertion of prm that contains blk.
@@ -1424,6 +1514,80 @@ func ruleNewMapArgs(p *Prog, r *Report) {
 	})
 	if checked < 2 {
 		r.Bad(rule, n, "pair parts located", p.Pos(fn.Pos()), "the lookup of the old path or the split of the new path was not found")
+	}
+	// what is inserted for a pair is what ValuesForPath yields for its old part — on every path (no second way of looking the
+	// old key up, which would not expand a final list into its members or skip an empty one)
+	var vfp *ssa.Call
+	eachInstr(fn, func(b *ssa.BasicBlock, in ssa.Instruction) {
+		if c, ok := in.(*ssa.Call); ok {
+			if g := staticCallee(&c.Call); g != nil && p.Name(g) == "mxj.Map.ValuesForPath" {
+				vfp = c
+			}
+		}
+	})
+	if vfp != nil {
+		var fromVFP func(v ssa.Value, seen map[ssa.Value]bool) bool
+		fromVFP = func(v ssa.Value, seen map[ssa.Value]bool) bool {
+			if seen[v] {
+				return true
+			}
+			seen[v] = true
+			switch x := v.(type) {
+			case *ssa.Extract:
+				return x.Tuple == ssa.Value(vfp) && x.Index == 0
+			case *ssa.Phi:
+				for _, e := range x.Edges {
+					if !fromVFP(e, seen) {
+						return false
+					}
+				}
+				return len(x.Edges) > 0
+			case *ssa.Call:
+				// a copy made by an unexported helper of the values (copyList)
+				if h := staticCallee(&x.Call); h != nil && p.InModule(h) && !p.Exported(h) && len(x.Call.Args) == 1 {
+					return fromVFP(x.Call.Args[0], seen)
+				}
+			case *ssa.Slice:
+				return x.Low == nil && x.High == nil && fromVFP(x.X, seen)
+			}
+			return false
+		}
+		nIns := 0
+		eachInstr(fn, func(b *ssa.BasicBlock, in ssa.Instruction) {
+			c, ok := in.(*ssa.Call)
+			if !ok {
+				return
+			}
+			g := staticCallee(&c.Call)
+			if g == nil || !p.InModule(g) || p.Exported(g) {
+				return
+			}
+			// the insertion helper: receives the address of the new map and a list of values
+			takesNew := false
+			for _, a := range c.Call.Args {
+				if pt, ok := a.Type().Underlying().(*types.Pointer); ok && isMapShaped(pt.Elem()) {
+					takesNew = true
+				}
+			}
+			if !takesNew {
+				return
+			}
+			for _, a := range c.Call.Args {
+				sl, ok := a.Type().Underlying().(*types.Slice)
+				if !ok || !isEmptyIface(sl.Elem()) {
+					continue
+				}
+				nIns++
+				if fromVFP(a, map[ssa.Value]bool{}) {
+					r.OK(rule, n, "inserted values are what ValuesForPath yields", p.Pos(c.Pos()), "the value list handed to "+p.Name(g)+" is the result of ValuesForPath (copied) on every path")
+				} else {
+					r.Bad(rule, n, "inserted values are what ValuesForPath yields", p.Pos(c.Pos()), "on some path the value list handed to "+p.Name(g)+" is not the result of ValuesForPath for the old part: a key looked up another way is not expanded (a final list stays a list, an empty list is inserted instead of skipped)")
+				}
+			}
+		})
+		if nIns == 0 {
+			r.Unknown(rule, n, "inserted values are what ValuesForPath yields", p.Pos(fn.Pos()), "the call that inserts the values into the new map was not found")
+		}
 	}
 	// every non-empty pair is validated: the tests that reject a wildcard or an index in the new part lie on every path through
 	// one iteration of the loop over the pairs (a pair whose old path yields nothing is skipped only after them)
